@@ -30,6 +30,20 @@ theorem sub_getD_of_mem {votes : Votes} (hwf : (votes.map (·.1)).Nodup) {c : Ca
     have : p = (c, v) := List.inj_on_of_nodup_map hwf hm h hk
     rw [this]; rfl
 
+theorem length_insNat (x : Nat) (l : List Nat) : (insNat x l).length = l.length + 1 := by
+  induction l with
+  | nil => rfl
+  | cons y ys ih =>
+    unfold insNat
+    split
+    · rfl
+    · simp only [List.length_cons, ih]
+
+theorem length_sortNat (l : List Nat) : (sortNat l).length = l.length := by
+  induction l with
+  | nil => rfl
+  | cons y ys ih => simp only [sortNat, length_insNat, ih, List.length_cons]
+
 theorem getK_nonneg_of_pos {s : Sel} (h : ∀ p ∈ s, 0 < p.2) (k : Key) : 0 ≤ getK s k 0 := by
   by_cases hk : hasK s k = true
   · exact le_of_lt (h _ (getK_mem_of_hasK hk))
@@ -73,6 +87,8 @@ structure SubInv (votes : Votes) (q : Rat) (sel : Sel) : Prop where
   marg : ∀ c m, (Key.cand c, m) ∈ sel → q * (m : Rat) ≤ getD votes c 0
   /-- at most one key is a `Tie` -/
   oneTie : ∀ T T', Key.tie T ∈ sel.map (·.1) → Key.tie T' ∈ sel.map (·.1) → T = T'
+  /-- a `Tie` holds fewer seats than it has members -/
+  tieBig : ∀ T m, (Key.tie T, m) ∈ sel → m < T.length
 
 /-- no key is a `Tie` -/
 def NoTie (sel : Sel) : Prop := ∀ T, Key.tie T ∉ sel.map (·.1)
@@ -82,7 +98,7 @@ theorem SubInv.decK {votes : Votes} {q : Rat} {sel : Sel} (hq : 0 ≤ q) (inv : 
   have hmem := getK_mem_of_hasK hk
   have hg := inv.pos _ hmem
   simp only at hg
-  refine ⟨?_, ?_, KNodup_decK inv.nd k, ?_, ?_⟩
+  refine ⟨?_, ?_, KNodup_decK inv.nd k, ?_, ?_, ?_⟩
   · intro p hp
     rcases mem_decK hp with hp | ⟨rfl, h1⟩
     · exact inv.pos p hp
@@ -102,6 +118,13 @@ theorem SubInv.decK {votes : Votes} {q : Rat} {sel : Sel} (hq : 0 ≤ q) (inv : 
       nlinarith
   · intro T T' hT hT'
     exact inv.oneTie T T' (keys_decK_subset hk hT) (keys_decK_subset hk hT')
+  · intro T m hp
+    rcases mem_decK hp with hp | ⟨he, _⟩
+    · exact inv.tieBig T m hp
+    · injection he with he1 he2
+      subst he1
+      have := inv.tieBig T _ hmem
+      omega
 
 theorem SubInv.foldl_decK {votes : Votes} {q : Rat} (hq : 0 ≤ q) (cs : List Cand) : ∀ (sel : Sel),
     SubInv votes q sel → cs.Nodup → (∀ c ∈ cs, hasK sel (.cand c) = true) →
@@ -121,10 +144,10 @@ theorem SubInv.foldl_decK {votes : Votes} {q : Rat} (hq : 0 ≤ q) (cs : List Ca
     exact ⟨h1, fun k hk => keys_decK_subset hc (h2 k hk)⟩
 
 theorem SubInv.setK_tie {votes : Votes} {q : Rat} {sel : Sel} (inv : SubInv votes q sel) (hno : NoTie sel)
-    {T : List Cand} {v : Int} (hv : 0 < v) (hT : KeyOK (keys votes) (Key.tie T)) :
+    {T : List Cand} {v : Int} (hv : 0 < v) (hv2 : v < T.length) (hT : KeyOK (keys votes) (Key.tie T)) :
     SubInv votes q (setK sel (Key.tie T) v) := by
   have hg := goodSel_setK (cands := keys votes) ⟨inv.pos, inv.keyok⟩ hv hT
-  refine ⟨hg.1, hg.2, KNodup_setK inv.nd _ _, ?_, ?_⟩
+  refine ⟨hg.1, hg.2, KNodup_setK inv.nd _ _, ?_, ?_, ?_⟩
   · intro c m hp
     rcases mem_setK hp with he | hp
     · cases he
@@ -140,6 +163,12 @@ theorem SubInv.setK_tie {votes : Votes} {q : Rat} {sel : Sel} (inv : SubInv vote
       injection this
     intro T1 T2 h1 h2
     rw [← key T1 h1, ← key T2 h2]
+  · intro T1 m hp
+    rcases mem_setK hp with he | hp
+    · injection he with he1 he2
+      injection he1 with he1
+      rw [he1, he2]; exact hv2
+    · exact inv.tieBig T1 m hp
 
 /-! ### the remainders dict of one pass -/
 
@@ -329,9 +358,13 @@ theorem subtractStep_ok {votes : Votes} {q : Rat} {sel : Sel} (hq : 0 < q) (inv 
       have hno' : NoTie (cs.foldl (fun acc c => QD.decK acc (.cand c)) sel) := fun T hT => hno T (hsub _ hT)
       refine ⟨_, rfl, ?_⟩
       unfold mkTie
-      refine inv'.setK_tie hno' ?_ hTok
-      have := getK_nonneg_of_pos inv'.pos (Key.tie (sortNat cs))
-      omega
+      have hz : getK (cs.foldl (fun acc c => QD.decK acc (.cand c)) sel) (Key.tie (sortNat cs)) 0 = 0 := by
+        apply getK_of_not_hasK
+        rw [← Bool.not_eq_true]
+        intro hh
+        exact hno' _ ((hasK_iff _ _).mp hh)
+      rw [hz]
+      refine inv'.setK_tie hno' (by omega) (by rw [length_sortNat]; omega) hTok
 
 /-- **the withdrawal loop never fails** while `selected` holds at least as many seats as there are passes to run -/
 theorem subtractLoop_ok {votes : Votes} {q : Rat} (hq : 0 < q) : ∀ (k : Nat) (sel : Sel), SubInv votes q sel →
@@ -353,7 +386,7 @@ theorem subtractLoop_ok {votes : Votes} {q : Rat} (hq : 0 < q) : ∀ (k : Nat) (
 theorem SubInv.wholeSel {votes : Votes} {q : Rat} (hq : 0 < q) (ae : Bool) (hwf : C02.WF votes []) :
     SubInv votes q (wholeSel q ae [] [] votes) := by
   have hg := goodSel_wholeSel q ae [] [] votes
-  refine ⟨hg.1, hg.2, KNodup_wholeSel q ae [] [] votes hwf.keys_nodup, ?_, ?_⟩
+  refine ⟨hg.1, hg.2, KNodup_wholeSel q ae [] [] votes hwf.keys_nodup, ?_, ?_, ?_⟩
   · intro c m hp
     unfold QD.wholeSel at hp
     obtain ⟨p, hpv, he⟩ := List.mem_filterMap.mp hp
@@ -371,6 +404,9 @@ theorem SubInv.wholeSel {votes : Votes} {q : Rat} (hq : 0 < q) (ae : Bool) (hwf 
     · cases he
   · intro T T' hT _
     obtain ⟨p, _, he⟩ := mem_keys_wholeSel hT
+    cases he
+  · intro T m hT
+    obtain ⟨p, _, he⟩ := mem_keys_wholeSel (List.mem_map.mpr ⟨_, hT, rfl⟩)
     cases he
 
 theorem sub_totalAwarded_nonneg (q : Rat) (ae : Bool) (votes : Votes) : 0 ≤ C02.totalAwarded q ae [] [] votes := by
@@ -429,6 +465,22 @@ theorem qd_subtract_shape (cfg : Cfg) (votes : Votes) (n : Nat) (hwf : C02.WF vo
     unfold C02.totalAwarded at hle
     omega
 
+/-- more about the answers under `'subtract'`: at most one key is a `Tie`, a `Tie` holds fewer seats than it has
+    members (the analogue of `SelShape.tie_big`), and no party keeps more seats than it has whole quotas -/
+theorem qd_subtract_ties (cfg : Cfg) (votes : Votes) (n : Nat) (hwf : C02.WF votes [])
+    (hq : 0 < cfg.quota (sumVals votes) n) (hpol : cfg.onOver = .subtract) :
+    ∀ res, quotaDistribute cfg votes n [] [] = .ok res →
+      (∀ T T' m m', (Key.tie T, m) ∈ res → (Key.tie T', m') ∈ res → T = T') ∧
+      (∀ T m, (Key.tie T, m) ∈ res → m < T.length) ∧
+      (∀ c m, (Key.cand c, m) ∈ res → cfg.quota (sumVals votes) n * (m : Rat) ≤ getD votes c 0) := by
+  intro res hres
+  obtain ⟨r, hr, inv⟩ := qd_subtract_run cfg votes n hwf hq hpol
+  rw [hres] at hr
+  injection hr with hr
+  subst hr
+  exact ⟨fun T T' m m' h h' => inv.oneTie T T' (List.mem_map.mpr ⟨_, h, rfl⟩) (List.mem_map.mpr ⟨_, h', rfl⟩),
+    inv.tieBig, inv.marg⟩
+
 /-- **QuotaDistributor, policy `'subtract'`: no refusal at all.**  For `evaluate(votes, n)` with a positive quota the
     withdrawal loop can raise neither `IndexError` (`get_n_best({}, 1)[0]`: `selected` is never empty while seats
     remain to be withdrawn) nor form a `Tie` of `Tie`s (the model's `Model:NestedTie`: at most one key is a `Tie`), and
@@ -480,5 +532,22 @@ theorem lr_subtract_refusals (cfg : Cfg) (votes : Votes) (n : Nat) (hwf : C02.WF
     · exact ⟨_, C02.lr_whole_then_remainders cfg votes n [] [] ⟨hwf, hq, hle⟩⟩
   obtain ⟨r, hr⟩ := hex
   exact ⟨⟨r, hr⟩, fun e he => by rw [hr] at he; cases he⟩
+
+/-- non-vacuity (Imperiali over-awards 6 seats for a house of 4): the first pass finds the three parties tied and hands
+    `3 − 1 = 2` seats to a fresh `Tie`, the second pass withdraws one seat from that `Tie` (its "remainder" `q·2 > 0`
+    is the unique maximum) -/
+example : C02.WF [(0, 6), (1, 6), (2, 6), (3, 0)] [] ∧
+    0 < Gen.Quota.imperiali (sumVals [(0, 6), (1, 6), (2, 6), (3, 0)]) 4 ∧
+    (4 : Int) < C02.totalAwarded (Gen.Quota.imperiali (sumVals [(0, 6), (1, 6), (2, 6), (3, 0)]) 4) true [] []
+      [(0, 6), (1, 6), (2, 6), (3, 0)] ∧
+    quotaDistribute ⟨Gen.Quota.imperiali, true, .subtract⟩ [(0, 6), (1, 6), (2, 6), (3, 0)] 4 [] [] =
+      .ok [(.cand 0, 1), (.cand 1, 1), (.cand 2, 1), (.tie [0, 1, 2], 1)] ∧
+    largestRemainder ⟨Gen.Quota.imperiali, true, .subtract⟩ [(0, 6), (1, 6), (2, 6), (3, 0)] 4 [] [] =
+      .ok [(.cand 0, 1), (.cand 1, 1), (.cand 2, 1), (.tie [0, 1, 2], 1)] := by
+  refine ⟨by unfold C02.WF; decide +kernel, by decide +kernel, by decide +kernel, by decide +kernel, by decide +kernel⟩
+
+/-- non-vacuity: a `Tie` entry that drops to 0 is deleted (two tied parties, two seats to withdraw) -/
+example : quotaDistribute ⟨Gen.Quota.imperiali, true, .subtract⟩ [(0, 5), (1, 5)] 2 [] [] =
+    .ok [(.cand 0, 1), (.cand 1, 1)] := by decide +kernel
 
 end VL.C08
